@@ -129,14 +129,44 @@ func init() {
 	l("regexp.Compile", inRegexpCompile)
 	l("(*regexp.Regexp).Match", inRegexpMatch)
 	l("(*regexp.Regexp).MatchString", inRegexpMatch)
-	// third-party quantile sketch: opaque stub (its value is outside every claim)
+	// third-party quantile sketch: the value it returns is opaque (outside every claim); what is
+	// modelled is its indexing of the unflushed sample buffer, which is how a rank outside [0, 1]
+	// makes the library panic
 	l("github.com/beorn7/perks/quantile.NewTargeted", func(fr *frame, a []value) value {
 		I.stubs["quantile sketch: opaque stub returning 0"]++
-		var cell value = nativeObj{"quantile"}
+		var cell value = nativeObj{&quantileStub{}}
 		return &cell
 	})
-	l("(*github.com/beorn7/perks/quantile.Stream).Insert", func(fr *frame, a []value) value { return nil })
-	l("(*github.com/beorn7/perks/quantile.Stream).Query", func(fr *frame, a []value) value { return float64(0) })
+	l("(*github.com/beorn7/perks/quantile.Stream).Insert", func(fr *frame, a []value) value {
+		if p, ok := a[0].(*value); ok && p != nil {
+			if o, ok := (*p).(nativeObj); ok {
+				if q, ok := o.v.(*quantileStub); ok {
+					q.n++
+				}
+			}
+		}
+		return nil
+	})
+	l("(*github.com/beorn7/perks/quantile.Stream).Query", func(fr *frame, a []value) value {
+		n := 0
+		if p, ok := a[0].(*value); ok && p != nil {
+			if o, ok := (*p).(nativeObj); ok {
+				if q, ok := o.v.(*quantileStub); ok {
+					n = q.n
+				}
+			}
+		}
+		if q, ok := a[1].(float64); ok && n > 0 && n < 500 {
+			i := int(math.Ceil(float64(n) * q))
+			if i > 0 {
+				i--
+			}
+			if i < 0 || i >= n {
+				panic(rtPanic(fmt.Sprintf("runtime error: index out of range [%d] with length %d", i, n)))
+			}
+		}
+		return float64(0)
+	})
 	l("encoding/json.Unmarshal", inJSONUnmarshal)
 	l("encoding/json.Marshal", inJSONMarshal)
 }
@@ -976,6 +1006,9 @@ func sprintf(format string, args []value) value {
 // ---------------------------------------------------------------- regexp, json (concrete only)
 
 type nativeObj struct{ v interface{} }
+
+// quantileStub counts the samples inserted into a stubbed quantile sketch.
+type quantileStub struct{ n int }
 
 func inRegexpCompile(fr *frame, a []value) value {
 	pat, ok := a[0].(string)
